@@ -17,10 +17,11 @@
 #include <errno.h>
 #include <string.h>
 #include <time.h>
+#include <stdarg.h>
 
 namespace {
 
-enum { OP_LOG = 1, OP_SETLEVEL, OP_SLEEP, OP_YIELD, OP_WRITER_FAIL, OP_STREAM_FAIL };
+enum { OP_LOG = 1, OP_SETLEVEL, OP_SLEEP, OP_YIELD, OP_WRITER_FAIL, OP_STREAM_FAIL, OP_FORMAT_DIRECT };
 enum { MODE_EXT_BG = 1, MODE_EXT_FG = 2, MODE_STANDARD = 3, MODE_NOALLOC = 4 };
 // cfg "own_file": modes 3 and 4 let the library open (and later close) the log file itself by name
 static const int CTRL = 5;
@@ -263,6 +264,56 @@ void do_log(Ctx &c, int thr, int &k, const sim::Op &op) {
         sim::violation("c14:lost", "call M%d.%d returned but its line did not reach the writer (synchronous logger)", thr, k);
 }
 
+// The fixed-size-buffer clause at every buffer size: aws_format_standard_log_line() (the formatter behind the no-alloc logger)
+// into a heap buffer of `total` bytes taken from the simulated allocator (guard bands behind it).
+static int format_direct_va(struct aws_logging_standard_formatting_data *fd, ...) {
+    va_list ap;
+    va_start(ap, fd);
+    int rc = aws_format_standard_log_line(fd, ap);
+    va_end(ap);
+    return rc;
+}
+void do_format_direct(Ctx &c, int thr, const sim::Op &op) {
+    size_t total = (size_t)op.a;
+    if (total == 0) total = 1;
+    int level = (int)(op.b % 6) + 1;
+    std::string body = make_body((uint64_t)op.d, (size_t)op.c);
+    char *buf = (char *)aws_mem_acquire(c.alloc, total);
+    memset(buf, 0x7e, total);
+    struct aws_logging_standard_formatting_data fd;
+    memset(&fd, 0, sizeof fd);
+    fd.log_line_buffer = buf; fd.total_length = total; fd.level = (enum aws_log_level)level; fd.subject_name = c.subject_name;
+    fd.format = "D%d|%s"; fd.date_format = AWS_DATE_FORMAT_ISO_8601; fd.allocator = c.alloc;
+    uint64_t r0 = sim::now_real();
+    Call tmp; tmp.thr = thr; tmp.k = -1; tmp.level = level;
+    c.current[sim::self()] = &tmp;
+    int rc = format_direct_va(&fd, thr, body.c_str());
+    c.current[sim::self()] = nullptr;
+    c.ops_done++;
+    if (rc == AWS_OP_SUCCESS) {
+        size_t n = fd.amount_written;
+        if (n == 0 || n > total) sim::violation("c14:fixed-buffer", "formatter reports %zu bytes written into a buffer of %zu", n, total);
+        if (buf[n - 1] != '\n') sim::violation("c14:newline", "line cut to fit a %zu-byte buffer does not end in a newline (%zu bytes written)", total, n);
+        if (memchr(buf, 0, n)) sim::violation("c14:nul", "line cut to fit a %zu-byte buffer contains a NUL byte", total);
+        if (memchr(buf, '\n', n - 1)) sim::violation("c14:newline", "embedded newline in a cut line");
+        // the text before the newline is a prefix of the full line
+        std::string ts;
+        for (uint64_t v : tmp.real_reads) ts = iso8601(v);
+        if (ts.empty()) ts = iso8601(r0);
+        char head[160];
+        snprintf(head, sizeof head, "[%s] [%s] [%s] [%s] - D%d|", kLevel[level], ts.c_str(), c.tid_repr[thr].c_str(), c.subject_name, thr);
+        std::string full = std::string(head) + body;
+        if (full.compare(0, n - 1, buf, n - 1) != 0) {
+            size_t i = 0;
+            while (i < n - 1 && i < full.size() && full[i] == buf[i]) i++;
+            sim::violation("c14:fixed-buffer", "line cut to fit a %zu-byte buffer is not a prefix of the full line (differs at byte %zu of %zu)", total, i, n);
+        }
+        if (n - 1 < full.size()) sim::probe("direct_format_truncated");
+        if (n - 1 < full.size() && n + 1 < total) sim::violation("c14:fixed-buffer", "line of %zu bytes cut although the buffer has %zu bytes", n, total);
+    } else sim::probe("direct_format_refused_tiny_buffer");
+    aws_mem_release(c.alloc, buf); // guard bands are checked by the allocator
+}
+
 struct ThreadArg { Ctx *c; int idx; };
 
 void logger_fn(void *arg) {
@@ -276,6 +327,7 @@ void logger_fn(void *arg) {
         if (op.thr != ta->idx) continue;
         switch (op.kind) {
             case OP_LOG: do_log(c, ta->idx, k, op); break;
+            case OP_FORMAT_DIRECT: do_format_direct(c, ta->idx, op); break;
             case OP_SLEEP: sim::sleep_ns((uint64_t)op.a); break;
             case OP_YIELD: sim::yield(); break;
             case OP_SETLEVEL: {
@@ -483,6 +535,12 @@ void gen(uint64_t seed, int tier, sim::Plan &p) {
             op.d = (int64_t)(r.next() >> 2);
             p.ops.push_back(op);
             total++;
+            if (r.chance(0.15)) {
+                sim::Op f; f.thr = t; f.kind = OP_FORMAT_DIRECT;
+                f.a = r.chance(0.7) ? r.range(1, 120) : r.range(1, 400);
+                f.b = r.range(0, 5); f.c = r.pick(std::vector<int64_t>{0, 1, 5, 40, 300}); f.d = (int64_t)(r.next() >> 2);
+                p.ops.push_back(f);
+            }
             if (r.chance(0.12)) { sim::Op s; s.thr = t; s.kind = r.chance(0.5) ? OP_YIELD : OP_SLEEP; s.a = r.pick(std::vector<int64_t>{1000, 1000000, 1000000000}); p.ops.push_back(s); }
             if (faults && (mode == 3 || mode == 4) && r.chance(0.03)) {
                 sim::Op f; f.thr = t; f.kind = OP_STREAM_FAIL; f.a = r.range(1, 3); f.b = r.pick(std::vector<int64_t>{0, 0, 10, 100}); f.c = r.pick(std::vector<int64_t>{EIO, ENOSPC});
@@ -516,6 +574,7 @@ std::string op_text(const sim::Op &op) {
         case OP_SLEEP: snprintf(b, sizeof b, "T%d: sleep(%lld ns virtual)", op.thr, (long long)op.a); break;
         case OP_YIELD: snprintf(b, sizeof b, "T%d: yield", op.thr); break;
         case OP_WRITER_FAIL: snprintf(b, sizeof b, "fault: writer returns AWS_OP_ERR on write #%lld", (long long)op.a); break;
+        case OP_FORMAT_DIRECT: snprintf(b, sizeof b, "T%d: aws_format_standard_log_line into a %lld-byte buffer (%s, body of %lld bytes)", op.thr, (long long)(op.a ? op.a : 1), kLevel[op.b % 6 + 1], (long long)op.c); break;
         case OP_STREAM_FAIL: snprintf(b, sizeof b, "T%d: fault: stream write #%lld from now accepts %lld bytes then fails with errno %lld", op.thr, (long long)op.a, (long long)op.b, (long long)op.c); break;
         default: snprintf(b, sizeof b, "?");
     }
